@@ -391,3 +391,9 @@ fn get_num_autocompleted_cells<'a>(container: &'a AstNode<'a>) -> usize {
 pub fn matches(line: &[u8], spoiler: bool) -> bool {
     row(line, spoiler).is_some()
 }
+
+/// Verification hook: `unescape_pipes`.
+#[cfg(comrak_verif)]
+pub fn verif_unescape_pipes(string: &[u8]) -> Vec<u8> {
+    unescape_pipes(string)
+}
